@@ -36,7 +36,7 @@ MORE_STYLES = {
     "tex": ("f.tex", [], "%", None, "# foreign"), "bat": ("f.bat", [], "REM", None, "# foreign"), "rst": ("f.rst", [], "..", None, "# foreign"),
     "haskell": ("f.hs", [], "--", None, "# foreign"), "ml": ("f.ml", [], None, ("(*", " *", " *)"), "# foreign"),
     "css": ("f.css", [], None, ("/*", " *", " */"), "# foreign"), "vim": ("f.vim", [], '"', None, "# foreign"),
-    "m4": ("f.m4", [], "dnl", None, "# foreign"), "f90": ("f.f90", [], "!", None, "# foreign"), "man": ("f.1", [], '.\\"', None, "# foreign"),
+    "m4": ("f.m4", [], "dnl", None, "# foreign"), "f90": ("f.f90", [], "!", None, "# foreign"), "man": ("f.man", [], '.\\"', None, "# foreign"),
     "xquery": ("f.xq", [], None, ("(:", " :", " :)"), "# foreign"), "vst": ("f.vm", [], None, ("#*", "", "*#"), "// foreign"),
     "ftl": ("f.ftl", [], None, ("<#--", "", "-->"), "# foreign"), "handlebars": ("f.hbs", [], None, ("{{!--", "", "--}}"), "# foreign"),
     "aspx": ("f.aspx", [], None, ("<%--", "", "--%>"), "# foreign"), "applescript": ("f.applescript", [], "--", ("(*", "", "*)"), "# foreign"),
@@ -179,6 +179,10 @@ def evaluate(c) -> R:
         r.outcome, r.nontrivial = "n/a", False
         return r
     P, H, S, (h_lo, h_up) = split_by_construction(seq, st, prefix_lines, c["replace"])
+    if c["prefix"] == "two-shebangs" and single and second_line[0].startswith(single) and H and h_lo == 0:
+        # the second declaration is a comment line of the style directly in front of the header run: part of the replaced block
+        r.outcome, r.nontrivial = "n/a", False
+        return r
     if c["prefix"] == "two-shebangs":
         # only the first line must stay first; a second declaration-like line is an ordinary body line
         if H and not P[len(prefix_lines):]:
